@@ -5,7 +5,7 @@ import os
 VERIF = os.path.dirname(os.path.dirname(os.path.abspath(__file__)))
 
 HOOK_COMMITS = ["b9d4bd0", "034d117", "c156e58"]
-FIX_COMMITS = ["d307ba7", "1245628", "e2789dc", "37d0178", "8d97c84", "106b808", "4ace02c", "398b1f9", "8e20502", "758bf79", "bcb9d1c", "736daa9", "680eb52", "15107c2", "4063672"]
+FIX_COMMITS = ["d307ba7", "1245628", "e2789dc", "37d0178", "8d97c84", "106b808", "4ace02c", "398b1f9", "8e20502", "758bf79", "bcb9d1c", "736daa9", "680eb52", "15107c2", "4063672", "617df8f", "9d2bbf4", "e5013fd"]
 
 TRUST = ("TLC 1.8 and the TLA+ reference modules (cross-validated against gcc 12 / gfortran / git where an "
          "external tool exists); the Python harness only materialises TLC-generated cases, reformats traces and "
@@ -169,6 +169,17 @@ CHECKS["C11"] = dict(
          "options, and no exception may escape. `--` (whose meaning differs between gcc and clang) and single-dash "
          "prefix abbreviations accepted by argparse are outside the catalogue.",
     design="3/C11")
+
+CHECKS["C13"] = dict(
+    technique="TLA+ path model for compilation-database entries (GenCompDb on FileSys.Resolve) checked by TLC; "
+              "TLC-enumerated databases replayed into config.load_database and finder.find, gcc -E validating the model",
+    text="TLC checks that an entry's resolution depends on that entry alone and yields canonical paths of existing source "
+         "files; every single-entry database over the spelling catalogues (756) and simulated multi-entry databases are "
+         "loaded by the real load_database: kept entries (in order), their file and include directories, and one warning "
+         "per skipped entry must match the reference; gcc -E run from the entry's directory confirms the reference's "
+         "reading of `file` and relative -I (disagreement above 2% aborts with exit 2); a finder.find run checks that only "
+         "the kept entries' files and the header they include are attributed.",
+    design="3/C13")
 
 PENDING_REASON = "check not built yet (build in progress; see DESIGN.md section 7)"
 
